@@ -259,6 +259,47 @@ CB_AT = [1, 2, 3, 0]
 CB_PLACE = ["same", "wrapper", "script", "none"]
 
 
+# the class named by a catch clause: every kind of binding for that name (error classes, other classes, non-classes, names
+# defined only later, locals, captures) x where the try sits x what is raised x with/without a second clause and an outer try.
+# All programs are loop free: a crash, a hang (step limit) or an exit without a traceback is a violation.
+CC_KINDS = [("Error", "", ""), ("sub", "class K : Error {}", ""), ("noterr", "class K {}", ""), ("num", "let K = 5;", ""), ("nilv", "let K = nil;", ""),
+            ("fnv", "fn K() {}", ""), ("strv", "let K = 'Error';", ""), ("inst", "let K = Error('k');", ""), ("alias", "let K = Error;", ""),
+            ("later_class", "", "class K : Error {}"), ("later_let", "", "let K = Error;"), ("later_fn", "", "fn K() {}")]
+CC_LOC = ["module", "fn", "lambda", "callback", "method", "fn_local", "fn_captured"]
+CC_RAISE = [("err", "raise Error('a');"), ("vm", "nil.nope();"), ("deep", "thrower();"), ("sub", "raise Sub2('s');")]
+CC_SHAPE = ["single", "then_blank", "outer", "nested_same_frame"]
+
+
+def catchcls_source(kind, loc, rz, shape):
+    name, pre, post = next((k, a, b) for k, a, b in CC_KINDS if k == kind)
+    cls = "Error" if kind == "Error" else "K"
+    body = dict(CC_RAISE)[rz]
+    t = "try { %s } catch e: %s { print('caught', e.cls().name()); }" % (body, cls)
+    if shape == "then_blank":
+        t = "try { %s } catch e: %s { print('caught', e.cls().name()); } catch e2 { print('second', e2.cls().name()); }" % (body, cls)
+    elif shape == "nested_same_frame":
+        t = "try { %s } catch o { print('outer same frame', o.cls().name()); }" % t
+    head = "class Sub2 : Error {} fn thrower() { raise Error('deep'); } "
+    if loc in ("fn_local", "fn_captured"):
+        if kind.startswith("later") or not pre.startswith("let"):
+            return None
+        inner = t if loc == "fn_local" else "let run = || { %s }; run();" % t
+        prog = head + "fn site() { %s %s print('after'); } " % (pre, inner)
+        call = "site();"
+    else:
+        wrap = {"module": "%s", "fn": "fn site() { %s print('after'); } ", "lambda": "let site = || { %s print('after'); }; ",
+                "callback": "fn site() { [1, 2].iter().each(|x| { %s }); print('after'); } ", "method": "class Site { m() { %s print('after'); } } fn site() { Site().m(); } "}[loc]
+        if loc == "module":
+            prog = head + pre + " "
+            call = t
+        else:
+            prog = head + pre + " " + wrap % t
+            call = "site();"
+    if shape == "outer":
+        call = "try { %s } catch o { print('outer', o.cls().name()); }" % call
+    return prog + call + " print('end'); " + post
+
+
 def cberr_source(driver, site, at, place):
     d = dict(CB_DRIVERS)[driver]
     st = dict(CB_SITES)[site]
@@ -339,6 +380,12 @@ class C16(Check):
             for sn, _ in CB_SITES:
                 for at in CB_AT:
                     yield ("cberr", dn, sn, at)
+        for kn, _, _ in CC_KINDS:
+            for loc in CC_LOC:
+                for rn, _ in CC_RAISE:
+                    for sh in CC_SHAPE:
+                        if catchcls_source(kn, loc, rn, sh) is not None:
+                            yield ("catchcls", kn, loc, rn, sh)
         # boundary-count programs (nesting depth, 254..300 locals/fields/methods/arguments/captures, wide constants): accepted ones must run without a crash
         from checks import c15
         for name, src in c15.boundary_family(th):
@@ -373,6 +420,8 @@ class C16(Check):
             return PRE + "print('M'); let v = %s; let k = %s; v.len = k; print('done');" % (spec[1], spec[2])
         if k == "cberr":
             return PRE + "print('M'); " + cberr_source(spec[1], spec[2], spec[3], "same")
+        if k == "catchcls":
+            return PRE + "print('M'); " + catchcls_source(*spec[1:])
         if k == "bound":
             return PRE + "print('M'); " + spec[2]
         if k in ("rec", "selfc", "prot", "err"):
@@ -432,6 +481,8 @@ class C16(Check):
         if c == "compile_error":
             return Verdict(True, False, "%s:compile_error" % spec[0])
         if c == "step_limit":
+            if spec[0] in ("catchcls", "cberr"):
+                return Verdict(False, True, "%s:hang" % spec[0], "a loop free program did not end within %d steps" % 5000000)
             return Verdict(True, False, "%s:step_limit" % spec[0])
         if r.get("mismatch", 0) and False:
             pass
